@@ -188,7 +188,7 @@ fn value_strategy() -> impl Strategy<Value = f64> + Clone {
     prop_oneof![
         4 => (1u32..=8 * 3840).prop_map(|k| k as f64 / 3840.0),
         3 => (0.0f64..1e6).prop_map(|x| x),
-        2 => (0.0f64..20.0),
+        2 => 0.0f64..20.0,
         1 => (0u32..5000, -3i32..=3).prop_map(|(k, e)| k as f64 + e as f64 * 1e-11),
         1 => (0u32..2000, 1u32..=16, 0u32..16, -50i32..=50)
             .prop_map(|(w, d, n, e)| w as f64 + (n % d) as f64 / d as f64 + e as f64 * 1e-4),
@@ -207,7 +207,7 @@ fn value_strategy() -> impl Strategy<Value = f64> + Clone {
 fn case_strategy() -> impl Strategy<Value = Case> + Clone {
     let acc = prop_oneof![
         3 => proptest::sample::select(ACCS.to_vec()),
-        2 => (0.0f32..=1.0f32),
+        2 => 0.0f32..=1.0f32,
     ];
     let whole = prop_oneof![
         3 => proptest::sample::select(WHOLES.to_vec()),
